@@ -94,8 +94,16 @@ func vpC27Features(s string) (class string, nontrivial bool) {
 
 // vpC27RoundTrip is oracle A. useArgs says whether QueryArgs() is called before serialising.
 // Returns the class of the case ("" when the input is outside the property's domain).
-func vpC27RoundTrip(t vpC27Fataler, s string, useArgs bool) string {
+//
+// prior != "": the URI object is not fresh - it parsed prior (and had its query arguments looked at) before, the way a
+// pooled URI (AcquireURI/ReleaseURI) or a Request's URI is used for one URI after another.
+func vpC27RoundTrip(t vpC27Fataler, s string, useArgs bool, prior string) string {
 	var u URI
+	if prior != "" {
+		if err := u.Parse(nil, []byte(prior)); err == nil {
+			vpC27Args(&u)
+		}
+	}
 	if err := u.Parse(nil, []byte(s)); err != nil {
 		return "rejected"
 	}
@@ -296,12 +304,17 @@ func vpC27GenURI() *rapid.Generator[string] {
 // ---------------------------------------------------------------------------------------------
 // tests
 
-func vpC27CheckOne(t vpC27Fataler, s string, useArgs bool) {
+func vpC27CheckOne(t vpC27Fataler, s string, useArgs bool) { vpC27CheckOneReused(t, s, useArgs, "") }
+
+func vpC27CheckOneReused(t vpC27Fataler, s string, useArgs bool, prior string) {
 	class, nt := vpC27Features(s)
-	ra := vpC27RoundTrip(t, s, useArgs)
+	ra := vpC27RoundTrip(t, s, useArgs, prior)
 	mode := "qs"
 	if useArgs {
 		mode = "args"
+	}
+	if prior != "" {
+		mode += "-reused-object"
 	}
 	switch ra {
 	case "ok":
@@ -321,7 +334,15 @@ func TestVP_C27_URIs(t *testing.T) {
 	rapid.Check(t, func(t *rapid.T) {
 		s := vpC27GenURI().Draw(t, "uri")
 		useArgs := rapid.Bool().Draw(t, "useArgs")
-		vpC27CheckOne(t, s, useArgs)
+		prior := ""
+		if rapid.IntRange(0, 2).Draw(t, "reusedObject") == 0 {
+			prior = vpC27GenURI().Draw(t, "priorURI")
+			if rapid.Bool().Draw(t, "priorQuery") {
+				// a prior URI with a well-filled query: more, fewer, longer arguments than the URI under test may have
+				prior = "http://prior.example/p?" + rapid.SampledFrom([]string{"a=1", "a=1&b=22", "a=1&b=22&c=333&d=4444", "k=" + strings.Repeat("v", 40) + "&l=x&m=y"}).Draw(t, "priorQS")
+			}
+		}
+		vpC27CheckOneReused(t, s, useArgs, prior)
 	})
 }
 
